@@ -62,6 +62,29 @@ var registry = map[string]propCfg{
 		Rule:        poolRule + "; C19 additionally ends every run with the continuation 'generate and commit batches until the pool reports no pending work' and checks that every admitted transaction whose lower nonces are present was batched",
 		Assumptions: poolAssumptions, Components: poolComponents,
 	},
+	"C01": chainProp("one case = a seeded block stream (transfers of every amount class incl. bad signatures, IBTP requests/receipts with valid/duplicate/skipped/zero/huge/old indices, timeouts, invalid proofs, wrong senders, empty blocks; drawn genesis: 1-4 admins, gas price, audit on/off) executed on 3-4 independent replicas that differ in proof-verification mode, LRU sizes and stop/reopen points; after every block block hash, all roots, every marshalled receipt, the delivery metadata and the whole state store are compared byte for byte", 600, 60000),
+	"C02": chainProp("one case = a seeded block stream dominated by IBTP requests/receipts over several ordered service pairs with next/duplicate/skipped/zero/huge/old indices, invalid proofs, wrong senders and unrelated transfers, audit on/off; a history oracle over receipts (accepted := receipt SUCCESS) checks index order, exactly-once acceptance, counters returned by the interchain query on both sides, delivery-set membership, and (twin replica) that rejected IBTPs change nothing", 800, 80000),
+	"C04": chainProp("one case = a seeded block stream of one-to-one IBTP traffic with receipts success/failure/rollback, timeouts 0..5 blocks, receipts before, in and after the expiry block and after final states, empty blocks; a reference status machine written from the statement is folded over the accepted events and block heights and compared with GetStatus after every block", 800, 80000),
+	"C06": chainProp("one case = a seeded block stream of one-to-one IBTP traffic with timeouts T in {0,1,2,3,5,2^62,-1} and receipts around H+T; after every block the per-chain timeout notification sets and the statuses are compared with a reference expiry model", 800, 80000),
+	"C07": chainProp("one case = a seeded mixed block stream; for every block one FAILED transaction (rotating) is replaced on a twin replica by an empty transaction of the same sender and nonce and the two resulting state stores are compared key by key (only the sender's and the admins' balances may differ, by exactly the fee difference); later receipts must be equal and the failed transaction must not appear in the delivery set; the twin is then brought to the real block through the executor's rollback path", 800, 80000),
+	"C14": chainProp("one case = a seeded block stream dominated by transfers (0, 1, small, exact balance, balance+1, 2^256, non-numeric; self transfers; to admins and contract-less accounts; bad signatures; gas price 0/1/50000; 1-4 admins) with single-transaction blocks mixed in; after every block the sum of all balances in the state store must not grow, no balance is negative, and for single-transfer blocks sender/receiver/fee/admin-split accounting is exact", 1000, 100000),
+}
+
+func chainProp(rule string, quick, thorough int) propCfg {
+	return propCfg{
+		Engine: "chainsim", Level: "exploration",
+		Quick:       tierCfg{Runs: quick, BudgetS: 100, MinimiseS: 40},
+		Thorough:    tierCfg{Runs: thorough, BudgetS: 1500, MinimiseS: 240},
+		Rule:        rule + "; non-trivial = >=3 blocks and >=5 transactions executed; distinct = distinct event-log digests",
+		Assumptions: []string{"the total order of blocks is given (trivial sequencer): these properties are about execution, ordering is C20's", "goroutine interleavings inside the executor and Go map iteration orders are sampled natively per replica (not PRNG-controlled); a divergence that depends on them is detected statistically and its replay is marked resampled", "SimKV stands in for leveldb; block files are real files on tmpfs"},
+		Components: map[string]string{
+			"internal/ledger, internal/executor, internal/executor/contracts/*, pkg/vm/boltvm, pkg/proof, bitxhub-core validators and manager contracts": "real",
+			"pkg/vm/wasm + wasmtime (cgo)":              "real (exercised only by XVM/rule steps)",
+			"leveldb":                                   "stub: sim.SimKV",
+			"consensus / ordering":                      "stub: trivial sequencer feeding identical CommitEvents",
+			"p2p, gRPC/JSON-RPC admission, TSS, router": "not run",
+		},
+	}
 }
 
 const poolRule = "one case = a seeded sequence of pool operations and faults (submit single/multi, leader/follower, local/remote, in order, gaps, duplicates by hash, conflicting transactions of equal nonce, stale nonces; GenerateBlock; commit notifications in order, out of order, partial, duplicated, and of blocks containing transactions this pool never received; batch-sequence resets; fake-clock advances with rebroadcast and age-based removal; pool restart from ledger nonces) with per-run account count 1-4, batch size 1-8, pool size, timed mode, executed on the real mempool inside a testing/synctest bubble (fake clock) next to a reference model; non-trivial = at least one batch produced and one commit delivered; distinct = distinct event-log digests"
